@@ -204,7 +204,8 @@ Qed.
 
 Lemma run_body_quiet s k c b o r : run_body classify s k c b = (o, r) -> quiet o.
 Proof.
-  unfold run_body. destruct (run_pre classify s k (c_req c) (c_clos c) (b_pre b)) as [o1 ok] eqn:P. intros [= <- _].
+  unfold run_body. destruct (c_gate c); [intros [= <- _]; reflexivity|].
+  destruct (run_pre classify s k (c_req c) (c_clos c) (b_pre b)) as [o1 ok] eqn:P. intros [= <- _].
   change (quiet ([OCalled k (c_req c) (c_reg c) (c_args c) (c_det c)] ++ o1)). apply quiet_app; [reflexivity|eapply run_pre_quiet; eauto].
 Qed.
 
@@ -283,9 +284,9 @@ Proof.
     assert (A3 : forall r, r <> req -> is_accepted r acc = false).
     { intros r Hn. cbn. apply N.eqb_neq. congruence. }
     assert (Main : forall s0 o0,
-      (let '(ob, r) := run_body classify s k {| c_req := req; c_reg := reg; c_args := args; c_det := det; c_clos := clos; c_st := CPending |} b in
+      (let '(ob, r) := run_body classify s k {| c_req := req; c_reg := reg; c_args := args; c_det := det; c_clos := clos; c_st := CPending; c_gate := gate_of d |} b in
        let s1 := {| regs := regs s; invs := aset req k (invs s);
-                    calls := aset k {| c_req := req; c_reg := reg; c_args := args; c_det := det; c_clos := clos; c_st := CPending |} (calls s);
+                    calls := aset k {| c_req := req; c_reg := reg; c_args := args; c_det := det; c_clos := clos; c_st := CPending; c_gate := gate_of d |} (calls s);
                     up := up s; joined := joined s; queue := queue s; nextk := k + 1 |} in
        match r with
        | None => (s1, acc :: ob)
@@ -298,7 +299,7 @@ Proof.
         eapply trans_comp; [|eapply complete_trans; eauto]. apply enter_trans; auto.
       - intros [= <- <-]. apply enter_trans; auto. }
     destruct fl; [exact (Main s' out)|].
-    destruct (r_coro d); [|exact (Main s' out)].
+    destruct (defers d); [|exact (Main s' out)].
     intros [= <- <-].
     change [acc] with ([acc] ++ []).
     match goal with |- trans s _ (set_queue ?sx _) => apply (trans_comp s [acc] sx []) end.
@@ -323,7 +324,7 @@ Proof.
     { intros s0 o0. destruct (c_clos c); [|intros [= <- <-]; apply trans_refl].
       destruct (progress_call classify s (c_req c) p) as [o1 [x|]] eqn:PC; intros [= <- <-];
         apply trans_quiet; auto; [apply quiet_app; [eapply progress_call_quiet; eauto|reflexivity]|eapply progress_call_quiet; eauto]. }
-    destruct (c_st c); try (apply P); intros [= <- <-]; apply trans_refl.
+    destruct (c_st c); try (destruct (c_gate c); [|apply P]); intros [= <- <-]; apply trans_refl.
   - discriminate.
   - destruct fl; [intros [= <- <-]; apply trans_refl|apply turn_trans].
 Qed.
@@ -498,9 +499,9 @@ Proof.
     assert (A1 : is_accepted req acc = true) by (cbn; apply N.eqb_refl).
     assert (A2 : forall r, is_terminal r acc = false) by reflexivity.
     assert (Main : forall s0 o0,
-      (let '(ob, r) := run_body classify s k {| c_req := req; c_reg := reg; c_args := args; c_det := det; c_clos := clos; c_st := CPending |} b in
+      (let '(ob, r) := run_body classify s k {| c_req := req; c_reg := reg; c_args := args; c_det := det; c_clos := clos; c_st := CPending; c_gate := gate_of d |} b in
        let s1 := {| regs := regs s; invs := aset req k (invs s);
-                    calls := aset k {| c_req := req; c_reg := reg; c_args := args; c_det := det; c_clos := clos; c_st := CPending |} (calls s);
+                    calls := aset k {| c_req := req; c_reg := reg; c_args := args; c_det := det; c_clos := clos; c_st := CPending; c_gate := gate_of d |} (calls s);
                     up := up s; joined := joined s; queue := queue s; nextk := k + 1 |} in
        match r with
        | None => (s1, acc :: ob)
@@ -512,7 +513,7 @@ Proof.
         intros [= <- <-]. change (acc :: ob ++ o2) with ((acc :: ob) ++ o2).
         eapply lebal_comp; [|eapply complete_le; eauto]. apply enter_le; auto.
       - intros [= <- <-]. apply enter_le; auto. }
-    destruct fl; [exact (Main s' out)|]. destruct (r_coro d); [|exact (Main s' out)].
+    destruct fl; [exact (Main s' out)|]. destruct (defers d); [|exact (Main s' out)].
     intros [= <- <-]. change [acc] with ([acc] ++ []).
     match goal with |- lebal s _ (set_queue ?sx _) => apply (lebal_comp s [acc] sx []) end.
     + apply enter_le; auto. reflexivity.
@@ -536,7 +537,7 @@ Proof.
     { intros s0 o0. destruct (c_clos c); [|intros [= <- <-]; apply lebal_refl].
       destruct (progress_call classify s (c_req c) p) as [o1 [x|]] eqn:PC; intros [= <- <-];
         apply lebal_quiet; auto; [apply quiet_app; [eapply progress_call_quiet; eauto|reflexivity]|eapply progress_call_quiet; eauto]. }
-    destruct (c_st c); try (apply P); intros [= <- <-]; apply lebal_refl.
+    destruct (c_st c); try (destruct (c_gate c); [|apply P]); intros [= <- <-]; apply lebal_refl.
   - intros [= <- <-]. apply lebal_quiet; reflexivity.
   - destruct fl; [intros [= <- <-]; apply lebal_refl|apply turn_le].
 Qed.
@@ -559,11 +560,20 @@ Proof.
 Qed.
 (* ================= classification of the real transports ================= *)
 Lemma classify_ok_ws : classify_ok ws_send.
-Proof. intros m. reflexivity. Qed.
+Proof.
+  intros m. unfold ws_send, ws_send_at, flag_size, flag_unser.
+  destruct (p_unser (m_payload m)), (p_big (m_payload m)); reflexivity.
+Qed.
 Lemma classify_ok_rs_tx : classify_ok rs_tx_send.
-Proof. intros m. reflexivity. Qed.
+Proof.
+  intros m. unfold rs_tx_send, rs_tx_send_at, flag_size, flag_unser.
+  destruct (p_unser (m_payload m)), (p_big (m_payload m)); reflexivity.
+Qed.
 Lemma classify_ok_rs_aio : classify_ok rs_aio_send.
-Proof. intros m. reflexivity. Qed.
+Proof.
+  intros m. unfold rs_aio_send, rs_aio_send_at, flag_size, flag_unser.
+  destruct (p_unser (m_payload m)), (p_big (m_payload m)); reflexivity.
+Qed.
 Lemma leaky_unser_not_ok x : ~ classify_ok (leaky_unser_send x).
 Proof. intros H. specialize (H (MYield 1 true (PVal 0 true false) false)). discriminate. Qed.
 Lemma leaky_big_not_ok : ~ classify_ok leaky_big_send.
@@ -673,17 +683,17 @@ Qed.
    nothing else in that step enters an endpoint *)
 Lemma args_fidelity classify ecls fl s req reg args caller rp b d :
   joined s = true -> amem req (invs s) = false -> alookup reg (regs s) = Some d ->
-  (fl = Tx \/ r_coro d = false) ->
+  (fl = Tx \/ defers d = false) -> gate_of d = None ->
   exists s' rest,
     step classify ecls fl s (OInvocation req reg args caller rp b) =
       (s', OAccepted (nextk s) req reg args caller rp (r_details d)
            :: OCalled (nextk s) req reg args (if r_details d then Some (caller, r_details d && rp) else None) :: rest)
     /\ nocalls rest.
 Proof.
-  intros J M L F. cbn [step]. rewrite J, M, L. cbn [negb].
-  assert (E : forall (X Y : st * list out), (match fl, r_coro d with Aio, true => X | _, _ => Y end) = Y).
+  intros J M L F G. cbn [step]. rewrite J, M, L. cbn [negb].
+  assert (E : forall (X Y : st * list out), (match fl, defers d with Aio, true => X | _, _ => Y end) = Y).
   { intros X Y. destruct F as [-> | ->]; [reflexivity|destruct fl; reflexivity]. }
-  rewrite E. clear E. unfold run_body. cbn [c_req c_reg c_args c_det c_clos].
+  rewrite E. clear E. unfold run_body. cbn [c_req c_reg c_args c_det c_clos c_gate]. rewrite G.
   destruct (run_pre classify s (nextk s) req (r_details d && rp) (b_pre b)) as [o1 ok] eqn:P.
   pose proof (run_pre_nocalls _ _ _ _ _ _ _ _ P) as N1.
   destruct (if ok then match b_fin b with FReturn r => Some (ROk r) | FRaise e => Some (RErr e) | FPending => None end
@@ -696,24 +706,24 @@ Qed.
 (* asyncio coroutine endpoints: the INVOCATION only creates the Task; the body is entered by the loop with the
    arguments stored at acceptance *)
 Lemma args_fidelity_aio_coro classify ecls s req reg args caller rp b d :
-  joined s = true -> amem req (invs s) = false -> alookup reg (regs s) = Some d -> r_coro d = true ->
+  joined s = true -> amem req (invs s) = false -> alookup reg (regs s) = Some d -> defers d = true ->
   exists s', step classify ecls Aio s (OInvocation req reg args caller rp b) =
       (s', [OAccepted (nextk s) req reg args caller rp (r_details d)])
     /\ queue s' = queue s ++ [QStep (nextk s)]
     /\ alookup (nextk s) (calls s') =
          Some {| c_req := req; c_reg := reg; c_args := args;
                  c_det := if r_details d then Some (caller, r_details d && rp) else None;
-                 c_clos := r_details d && rp; c_st := CFresh b false |}.
+                 c_clos := r_details d && rp; c_st := CFresh b false; c_gate := gate_of d |}.
 Proof.
   intros J M L C. cbn [step]. rewrite J, M, L, C. cbn [negb].
   eexists. split; [reflexivity|]. cbn. split; [reflexivity|]. now rewrite N.eqb_refl.
 Qed.
 Lemma coro_step_calls classify ecls s k c b :
-  alookup k (calls s) = Some c -> c_st c = CFresh b false ->
+  alookup k (calls s) = Some c -> c_st c = CFresh b false -> c_gate c = None ->
   exists s' rest, run_item classify ecls s (QStep k) = (s', OCalled k (c_req c) (c_reg c) (c_args c) (c_det c) :: rest)
                   /\ nocalls rest.
 Proof.
-  intros L C. cbn [run_item]. rewrite L, C. unfold run_body.
+  intros L C G. cbn [run_item]. rewrite L, C. unfold run_body. rewrite G.
   destruct (run_pre classify s k (c_req c) (c_clos c) (b_pre b)) as [o1 ok] eqn:P.
   pose proof (run_pre_nocalls _ _ _ _ _ _ _ _ P) as N1.
   destruct (if ok then match b_fin b with FReturn r => Some (ROk r) | FRaise e => Some (RErr e) | FPending => None end
@@ -861,7 +871,8 @@ Lemma okout_called seen k r g a d : okout seen [OCalled k r g a d]. Proof. split
 Lemma run_body_p seen s k c b o r :
   (c_clos c = true -> In (c_req c) seen) -> run_body classify s k c b = (o, r) -> okout seen o.
 Proof.
-  intros Hc. unfold run_body. destruct (run_pre classify s k (c_req c) (c_clos c) (b_pre b)) as [o1 ok] eqn:P. intros [= <- _].
+  intros Hc. unfold run_body. destruct (c_gate c); [intros [= <- _]; apply okout_nil|].
+  destruct (run_pre classify s k (c_req c) (c_clos c) (b_pre b)) as [o1 ok] eqn:P. intros [= <- _].
   change (okout seen ([OCalled k (c_req c) (c_reg c) (c_args c) (c_det c)] ++ o1)).
   apply okout_app; [apply okout_called|eapply run_pre_p; eauto].
 Qed.
@@ -926,15 +937,15 @@ Proof.
     { unfold clos, seen1. rewrite andb_comm. intros ->. now left. }
     assert (Hm : forall r0, In r0 seen -> In r0 seen1) by (intros r0 H; unfold seen1; destruct (rp && r_details d); [now right|exact H]).
     assert (Ent : forall cs s1, s1 = {| regs := regs s; invs := aset req k (invs s);
-                    calls := aset k {| c_req := req; c_reg := reg; c_args := args; c_det := det; c_clos := clos; c_st := cs |} (calls s);
+                    calls := aset k {| c_req := req; c_reg := reg; c_args := args; c_det := det; c_clos := clos; c_st := cs; c_gate := gate_of d |} (calls s);
                     up := up s; joined := joined s; queue := queue s; nextk := k + 1 |} -> Inv s1 seen1).
     { intros cs s1 -> k' c' H C. cbn [calls] in H. destruct (N.eq_dec k' k) as [->|Hn].
       - rewrite alookup_aset_same in H. injection H as <-. cbn in C |- *. now apply Hs1.
       - rewrite alookup_aset_other in H by exact Hn. apply Hm. now apply (Hi k' c'). }
     assert (Main : forall s0 o0,
-      (let '(ob, r) := run_body classify s k {| c_req := req; c_reg := reg; c_args := args; c_det := det; c_clos := clos; c_st := CPending |} b in
+      (let '(ob, r) := run_body classify s k {| c_req := req; c_reg := reg; c_args := args; c_det := det; c_clos := clos; c_st := CPending; c_gate := gate_of d |} b in
        let s1 := {| regs := regs s; invs := aset req k (invs s);
-                    calls := aset k {| c_req := req; c_reg := reg; c_args := args; c_det := det; c_clos := clos; c_st := CPending |} (calls s);
+                    calls := aset k {| c_req := req; c_reg := reg; c_args := args; c_det := det; c_clos := clos; c_st := CPending; c_gate := gate_of d |} (calls s);
                     up := up s; joined := joined s; queue := queue s; nextk := k + 1 |} in
        match r with
        | None => (s1, acc :: ob)
@@ -948,7 +959,7 @@ Proof.
         unfold acc. cbn [prog_ok seen_after]. fold seen1. rewrite prog_ok_app, seen_after_app, OB1, OB2, O1, O2. split; [reflexivity|].
         eapply Inv_pres; [|exact P]. eapply Ent; reflexivity.
       - intros [= <- <-]. unfold acc. cbn [prog_ok seen_after]. fold seen1. rewrite OB1, OB2. split; [reflexivity|]. eapply Ent; reflexivity. }
-    destruct fl; [exact (Main s' out)|]. destruct (r_coro d); [|exact (Main s' out)].
+    destruct fl; [exact (Main s' out)|]. destruct (defers d); [|exact (Main s' out)].
     intros [= <- <-]. unfold acc. cbn [prog_ok seen_after]. fold seen1. split; [reflexivity|].
     eapply Inv_pres; [eapply Ent; reflexivity|]. now apply pres_same_calls.
   - destruct (negb (joined s)); [intros [= <- <-]; apply Easy; [apply okout_raised|apply pres_refl]|].
@@ -972,7 +983,7 @@ Proof.
         pose proof (progress_call_p seen _ _ _ _ _ (Hi k c L C) PC) as O1; intros [= <- <-]; apply Easy; try apply pres_refl.
       - apply okout_app; [exact O1|apply okout_prograised].
       - exact O1. }
-    destruct (c_st c); try (apply P); intros [= <- <-]; apply Easy; try apply okout_nil; apply pres_refl.
+    destruct (c_st c); try (destruct (c_gate c); [|apply P]); intros [= <- <-]; apply Easy; try apply okout_nil; apply pres_refl.
   - intros [= <- <-]. apply Easy; [apply okout_nil|now apply pres_same_calls].
   - destruct fl; [intros [= <- <-]; apply Easy; [apply okout_nil|apply pres_refl]|].
     intros T. destruct (turn_p seen _ _ _ Hi T). now apply Easy.
@@ -1064,17 +1075,17 @@ Qed.
    among it), then the outcome of the reply callbacks (no progressive result among it) *)
 Lemma progress_sync_before_terminal classify ecls fl s req reg args caller rp b d :
   joined s = true -> amem req (invs s) = false -> alookup reg (regs s) = Some d ->
-  (fl = Tx \/ r_coro d = false) ->
+  (fl = Tx \/ defers d = false) -> gate_of d = None ->
   exists s' body cb,
     step classify ecls fl s (OInvocation req reg args caller rp b) =
       (s', OAccepted (nextk s) req reg args caller rp (r_details d)
            :: OCalled (nextk s) req reg args (if r_details d then Some (caller, r_details d && rp) else None) :: body ++ cb)
     /\ quiet body /\ noprogs cb.
 Proof.
-  intros J M L F. cbn [step]. rewrite J, M, L. cbn [negb].
-  assert (E : forall (X Y : st * list out), (match fl, r_coro d with Aio, true => X | _, _ => Y end) = Y).
+  intros J M L F G. cbn [step]. rewrite J, M, L. cbn [negb].
+  assert (E : forall (X Y : st * list out), (match fl, defers d with Aio, true => X | _, _ => Y end) = Y).
   { intros X Y. destruct F as [-> | ->]; [reflexivity|destruct fl; reflexivity]. }
-  rewrite E. clear E. unfold run_body. cbn [c_req c_reg c_args c_det c_clos].
+  rewrite E. clear E. unfold run_body. cbn [c_req c_reg c_args c_det c_clos c_gate]. rewrite G.
   destruct (run_pre classify s (nextk s) req (r_details d && rp) (b_pre b)) as [o1 ok] eqn:P.
   pose proof (run_pre_quiet _ _ _ _ _ _ _ _ P) as Q1.
   destruct (if ok then match b_fin b with FReturn r => Some (ROk r) | FRaise e => Some (RErr e) | FPending => None end
@@ -1086,19 +1097,19 @@ Qed.
 
 (* a later details.progress(...) is sent whenever the closure exists -- also for a finished call: no guard *)
 Lemma progress_closure_unguarded classify ecls fl s k c p :
-  alookup k (calls s) = Some c -> c_clos c = true -> c_st c = CDone -> up s = true ->
+  alookup k (calls s) = Some c -> c_clos c = true -> c_gate c = None -> c_st c = CDone -> up s = true ->
   classify (MYield (c_req c) false p true) = Sent ->
   step classify ecls fl s (OProgress k p) = (s, [OSent (MYield (c_req c) false p true)]).
 Proof.
-  intros L C D U S. cbn [step]. rewrite L, D, C. unfold progress_call. now rewrite U, S.
+  intros L C G D U S. cbn [step]. rewrite L, D, G, C. unfold progress_call. now rewrite U, S.
 Qed.
 Lemma progress_needs_closure classify ecls fl s k c p :
   alookup k (calls s) = Some c -> c_clos c = false -> step classify ecls fl s (OProgress k p) = (s, []).
-Proof. intros L C. cbn [step]. rewrite L, C. now destruct (c_st c). Qed.
+Proof. intros L C. cbn [step]. rewrite L, C. destruct (c_st c); destruct (c_gate c); reflexivity. Qed.
 
 (* ================= witnesses ================= *)
-Definition d_plain := {| r_details := true; r_coro := false |}.
-Definition d_coro := {| r_details := true; r_coro := true |}.
+Definition d_plain := {| r_details := true; r_coro := false; r_check := false; r_sig := SigOk |}.
+Definition d_coro := {| r_details := true; r_coro := true; r_check := false; r_sig := SigOk |}.
 Definition V (i : N) := PVal i false false.
 
 (* progress after the terminal reply: INTERRUPT answered with ERROR, then the endpoint reports progress *)
@@ -1117,7 +1128,7 @@ Proof. intros []; (split; [reflexivity|]); (split; [vm_compute; reflexivity|]); 
 
 (* the hypothesis classify_ok of one_terminal is needed: the two send() implementations as they were *)
 Definition h_unser_result : list op :=
-  [ORegister 100 {| r_details := false; r_coro := false |};
+  [ORegister 100 {| r_details := false; r_coro := false; r_check := false; r_sig := SigOk |};
    OInvocation 1 100 (V 0) 7 false {| b_pre := []; b_fin := FReturn (RPlain (PVal 1 true false)) |}; OTurn].
 Lemma leaky_unser_loses_reply ser_exn ecls :
   stays_up h_unser_result /\
@@ -1126,7 +1137,7 @@ Lemma leaky_unser_loses_reply ser_exn ecls :
     /\ active 1 s = 0%nat.
 Proof. split; [reflexivity|]. eexists. split; reflexivity. Qed.
 Definition h_big_error : list op :=
-  [ORegister 100 {| r_details := false; r_coro := false |};
+  [ORegister 100 {| r_details := false; r_coro := false; r_check := false; r_sig := SigOk |};
    OInvocation 1 100 (V 0) 7 false {| b_pre := []; b_fin := FRaise (EApp 3 (PVal 1 false true)) |}; OTurn].
 Lemma leaky_big_loses_reply ecls :
   stays_up h_big_error /\
@@ -1162,15 +1173,15 @@ Definition h_coro_cancel : list op :=
    OInvocation 2 100 (V 12) 7 false {| b_pre := []; b_fin := FPending |}; OTurn; OResolve 1 (ROk (RPlain (V 3))); OInterrupt 2; OTurn].
 
 Lemma args_fidelity_aio_coroutine : forall classify ecls s req reg args caller rp b d,
-  joined s = true -> amem req (invs s) = false -> alookup reg (regs s) = Some d -> r_coro d = true ->
+  joined s = true -> amem req (invs s) = false -> alookup reg (regs s) = Some d -> defers d = true ->
   (exists s', step classify ecls Aio s (OInvocation req reg args caller rp b) =
       (s', [OAccepted (nextk s) req reg args caller rp (r_details d)])
     /\ queue s' = queue s ++ [QStep (nextk s)]
     /\ alookup (nextk s) (calls s') =
          Some {| c_req := req; c_reg := reg; c_args := args;
                  c_det := if r_details d then Some (caller, r_details d && rp) else None;
-                 c_clos := r_details d && rp; c_st := CFresh b false |})
-  /\ (forall s1 k c b1, alookup k (calls s1) = Some c -> c_st c = CFresh b1 false ->
+                 c_clos := r_details d && rp; c_st := CFresh b false; c_gate := gate_of d |})
+  /\ (forall s1 k c b1, alookup k (calls s1) = Some c -> c_st c = CFresh b1 false -> c_gate c = None ->
       exists s2 rest, run_item classify ecls s1 (QStep k) = (s2, OCalled k (c_req c) (c_reg c) (c_args c) (c_det c) :: rest)
                       /\ nocalls rest).
 Proof. intros. split; [now apply args_fidelity_aio_coro|intros; eapply coro_step_calls; eauto]. Qed.
@@ -1317,7 +1328,8 @@ Lemma run_body_c tab s k c b o r :
   alookup k tab = Some (c_req c, c_reg c, c_args c, c_det c) -> run_body classify s k c b = (o, r) ->
   call_ok tab o = true /\ tab_after tab o = tab.
 Proof.
-  intros Ht. unfold run_body. destruct (run_pre classify s k (c_req c) (c_clos c) (b_pre b)) as [o1 ok] eqn:P. intros [= <- _].
+  intros Ht. unfold run_body. destruct (c_gate c); [intros [= <- _]; split; reflexivity|].
+  destruct (run_pre classify s k (c_req c) (c_clos c) (b_pre b)) as [o1 ok] eqn:P. intros [= <- _].
   destruct (inerts_ok tab o1 (run_pre_inerts _ _ _ _ _ _ _ P)) as [A B].
   split; [change (match alookup k tab with Some e => entry_eqb e (c_req c, c_reg c, c_args c, c_det c) | None => false end && call_ok tab o1 = true);
           rewrite Ht, entry_eqb_refl; exact A|exact B].
@@ -1398,16 +1410,16 @@ Proof.
     assert (Ht : alookup k tab1 = Some (req, reg, args, det)).
     { unfold tab1. cbn. rewrite N.eqb_refl, Hd. reflexivity. }
     assert (Ent : forall cs s1, s1 = {| regs := regs s; invs := aset req k (invs s);
-                    calls := aset k {| c_req := req; c_reg := reg; c_args := args; c_det := det; c_clos := clos; c_st := cs |} (calls s);
+                    calls := aset k {| c_req := req; c_reg := reg; c_args := args; c_det := det; c_clos := clos; c_st := cs; c_gate := gate_of d |} (calls s);
                     up := up s; joined := joined s; queue := queue s; nextk := k + 1 |} -> InvC s1 tab1).
     { intros cs s1 -> k' c' H. cbn [calls] in H. destruct (N.eq_dec k' k) as [->|Hn].
       - rewrite alookup_aset_same in H. injection H as <-. exact Ht.
       - rewrite alookup_aset_other in H by exact Hn. unfold tab1. cbn.
         destruct (k' =? k) eqn:E; [apply N.eqb_eq in E; congruence|]. now apply Hi. }
     assert (Main : forall s0 o0,
-      (let '(ob, r) := run_body classify s k {| c_req := req; c_reg := reg; c_args := args; c_det := det; c_clos := clos; c_st := CPending |} b in
+      (let '(ob, r) := run_body classify s k {| c_req := req; c_reg := reg; c_args := args; c_det := det; c_clos := clos; c_st := CPending; c_gate := gate_of d |} b in
        let s1 := {| regs := regs s; invs := aset req k (invs s);
-                    calls := aset k {| c_req := req; c_reg := reg; c_args := args; c_det := det; c_clos := clos; c_st := CPending |} (calls s);
+                    calls := aset k {| c_req := req; c_reg := reg; c_args := args; c_det := det; c_clos := clos; c_st := CPending; c_gate := gate_of d |} (calls s);
                     up := up s; joined := joined s; queue := queue s; nextk := k + 1 |} in
        match r with
        | None => (s1, OAccepted k req reg args caller rp (r_details d) :: ob)
@@ -1422,7 +1434,7 @@ Proof.
         cbn [call_ok tab_after]. fold tab1. rewrite call_ok_app, tab_after_app, OB1, OB2, O1, O2. split; [reflexivity|].
         eapply InvC_pres; [eapply Ent; reflexivity|eapply complete_pres; eauto].
       - intros [= <- <-]. cbn [call_ok tab_after]. fold tab1. rewrite OB1, OB2. split; [reflexivity|]. eapply Ent; reflexivity. }
-    destruct fl; [exact (Main s' out)|]. destruct (r_coro d); [|exact (Main s' out)].
+    destruct fl; [exact (Main s' out)|]. destruct (defers d); [|exact (Main s' out)].
     intros [= <- <-]. cbn [call_ok tab_after]. fold tab1. split; [reflexivity|].
     eapply InvC_pres; [eapply Ent; reflexivity|now apply pres_same_calls].
   - destruct (negb (joined s)); [intros [= <- <-]; apply Inert; [reflexivity|apply pres_refl]|].
@@ -1445,7 +1457,7 @@ Proof.
       destruct (progress_call classify s (c_req c) p) as [o1 [x|]] eqn:PC;
         assert (N1 : inerts o1) by (unfold progress_call in PC; destruct (up s); [destruct (classify _)|]; first [discriminate|inversion PC; subst; reflexivity]);
         intros [= <- <-]; apply Inert; try apply pres_refl; [apply inerts_app; [exact N1|reflexivity]|exact N1]. }
-    destruct (c_st c); try (apply P); intros [= <- <-]; apply Inert; try reflexivity; apply pres_refl.
+    destruct (c_st c); try (destruct (c_gate c); [|apply P]); intros [= <- <-]; apply Inert; try reflexivity; apply pres_refl.
   - intros [= <- <-]. apply Inert; [reflexivity|now apply pres_same_calls].
   - destruct fl; [intros [= <- <-]; apply Inert; [reflexivity|apply pres_refl]|].
     intros T. apply Easy; [eapply turn_c; eauto|eapply turn_pres; eauto].
@@ -1495,3 +1507,48 @@ Proof.
   apply call_ok_split in P. destruct (tab_after_origin _ _ _ _ P) as [H|(a1 & a2 & a3 & a4 & a5 & a6 & Hin & Ee)]; [discriminate|].
   injection Ee as -> -> -> ->. exists a4, a5, a6. split; [exact Hin|reflexivity].
 Qed.
+
+(* ================= exact size boundary of the real send() ================= *)
+Lemma ws_boundary msize munser limit m : 0 < limit ->
+  ws_send_at msize munser limit m = if munser m then SerErr else if msize m <=? limit then Sent else Exceeded.
+Proof.
+  intros H. unfold ws_send_at. destruct (munser m); [reflexivity|].
+  apply N.ltb_lt in H. rewrite H. cbn. rewrite N.ltb_antisym. now destruct (msize m <=? limit).
+Qed.
+Lemma rs_tx_boundary msize munser limit m : 0 < limit ->
+  rs_tx_send_at msize munser limit m = if munser m then SerErr else if msize m <=? limit then Sent else Exceeded.
+Proof. exact (ws_boundary msize munser limit m). Qed.
+Lemma rs_aio_boundary msize munser limit m :
+  rs_aio_send_at msize munser limit m = if munser m then SerErr else if msize m <=? limit then Sent else Exceeded.
+Proof.
+  unfold rs_aio_send_at. destruct (munser m); [reflexivity|]. rewrite N.ltb_antisym. now destruct (msize m <=? limit).
+Qed.
+Lemma ws_no_limit msize munser m : ws_send_at msize munser 0 m = if munser m then SerErr else Sent.
+Proof. unfold ws_send_at. now destruct (munser m). Qed.
+
+(* ================= check_types / arguments that do not fit the endpoint ================= *)
+Lemma gate_of_cases d e : gate_of d = Some e -> e = EInternal \/ (e = ETypeCheck /\ r_check d = true).
+Proof. unfold gate_of. destruct (r_sig d); [discriminate|intros [= <-]; now left|destruct (r_check d); [intros [= <-]; now right|discriminate]]. Qed.
+Lemma gated_call_rejected_tx classify ecls s req reg args caller rp b d e :
+  classify_ok classify -> up s = true -> joined s = true -> amem req (invs s) = false ->
+  alookup reg (regs s) = Some d -> gate_of d = Some e ->
+  exists s', step classify ecls Tx s (OInvocation req reg args caller rp b) =
+      (s', [OAccepted (nextk s) req reg args caller rp (r_details d); OSent (MError req (uri_of ecls e) PText)])
+    /\ amem req (invs s') = false.
+Proof.
+  intros Hok U J M L G. cbn [step]. rewrite J, M, L. cbn [negb]. unfold run_body. cbn [c_gate]. rewrite G.
+  unfold complete, run_cb. unfold set_cst. cbn [calls]. rewrite alookup_aset_same. cbn [calls set_calls].
+  rewrite alookup_aset_same. cbn [c_req]. unfold run_error. cbn [invs set_calls up]. rewrite alookup_aset_same, U.
+  assert (P : epayload e = PText) by (destruct (gate_of_cases _ _ G) as [->|[-> _]]; reflexivity).
+  unfold send_with_fallback. rewrite (Hok (MError req (uri_of ecls e) (epayload e))), P. cbn.
+  eexists. split; [reflexivity|]. cbn. unfold amem, aset. cbn. rewrite N.eqb_refl. now rewrite alookup_aremove_same.
+Qed.
+
+(* check_types: well-typed call, ill-typed call (type hint), unbindable call *)
+Definition h_check_types : list op :=
+  [ORegister 100 {| r_details := true; r_coro := false; r_check := true; r_sig := SigOk |};
+   ORegister 101 {| r_details := false; r_coro := false; r_check := true; r_sig := SigIllTyped |};
+   ORegister 102 {| r_details := false; r_coro := false; r_check := false; r_sig := SigShort |};
+   OInvocation 1 100 (V 11) 7 false {| b_pre := []; b_fin := FReturn (RPlain (V 21)) |}; OTurn;
+   OInvocation 2 101 (V 12) 7 false {| b_pre := []; b_fin := FReturn (RPlain (V 22)) |}; OTurn;
+   OInvocation 3 102 (V 13) 7 false {| b_pre := []; b_fin := FReturn (RPlain (V 23)) |}; OTurn].
